@@ -287,51 +287,62 @@ Definition props_ok (cs : cstate) (vid : N) : Prop :=
                         wf_ty ty = true /\
                         Forall (fun f => Forall (filter_ok ty) (fn_filters f)) fields.
 
+Definition vf_wf (fs : list vfilter) : Prop := tys_wf (filter_vars fs).
+Lemma filter_vars_snoc : forall fs f, filter_vars (fs ++ [f]) = filter_vars fs ++ filter_vars [f].
+Proof. intros. unfold filter_vars. rewrite flat_map_app. reflexivity. Qed.
+
 Lemma vertex_filters_dirs_ok : forall path vid pname pty ds tags filters errors,
-  tags_ok tags path -> wf_ty pty = true -> Forall (filter_ok pty) ds ->
+  tags_ok tags path -> wf_ty pty = true -> Forall (filter_ok pty) ds -> vf_wf filters ->
   exists tags' filters' errors',
     vertex_filters_dirs tags path vid pname pty ds filters errors = Ok (tags', filters', errors') /\
-    tags_ok tags' path.
+    tags_ok tags' path /\ vf_wf filters'.
 Proof.
-  intros path vid pname pty ds. induction ds as [| d r IH]; intros tags filters errors Ht W Hok.
-  - do 3 eexists; split; [reflexivity | exact Ht].
+  intros path vid pname pty ds. induction ds as [| d r IH]; intros tags filters errors Ht W Hok Hwf.
+  - do 3 eexists; split; [reflexivity | split; assumption].
   - inversion Hok as [| x xs Hd Hr]; subst. cbn [vertex_filters_dirs].
     destruct (make_filter_expr_total tags path vid pname pty d Ht W Hd) as [[tags1 res] [Hm Ht1]].
-    rewrite Hm. cbn [bind snd fst]. destruct res as [e | [op rhs]]; apply IH; assumption.
+    rewrite Hm. cbn [bind snd fst]. destruct res as [e | [op rhs]]; apply IH; try assumption.
+    unfold vf_wf. rewrite filter_vars_snoc. apply Forall_app. split; [exact Hwf |].
+    unfold filter_vars. cbn [flat_map vf_arg]. rewrite app_nil_r.
+    destruct rhs as [[fr | n t] |]; try constructor; [| constructor].
+    cbn [snd]. eapply make_filter_expr_var_wf; [exact W | exact Hm].
 Qed.
 
 Lemma vertex_filters_fields_ok : forall path vid pname pty fields tags filters errors,
   tags_ok tags path -> wf_ty pty = true ->
-  Forall (fun f => Forall (filter_ok pty) (fn_filters f)) fields ->
+  Forall (fun f => Forall (filter_ok pty) (fn_filters f)) fields -> vf_wf filters ->
   exists tags' filters' errors',
     vertex_filters_fields tags path vid pname pty fields filters errors = Ok (tags', filters', errors') /\
-    tags_ok tags' path.
+    tags_ok tags' path /\ vf_wf filters'.
 Proof.
-  intros path vid pname pty fields. induction fields as [| f r IH]; intros tags filters errors Ht W Hok.
-  - do 3 eexists; split; [reflexivity | exact Ht].
+  intros path vid pname pty fields. induction fields as [| f r IH]; intros tags filters errors Ht W Hok Hwf.
+  - do 3 eexists; split; [reflexivity | split; assumption].
   - inversion Hok as [| x xs Hf Hr]; subst. cbn [vertex_filters_fields].
-    destruct (vertex_filters_dirs_ok path vid pname pty (fn_filters f) tags filters errors Ht W Hf)
-      as [t1 [f1 [e1 [H1 Ht1]]]].
+    destruct (vertex_filters_dirs_ok path vid pname pty (fn_filters f) tags filters errors Ht W Hf Hwf)
+      as [t1 [f1 [e1 [H1 [Ht1 Hw1]]]]].
     rewrite H1. cbn [bind]. apply IH; assumption.
 Qed.
 
 Lemma vertex_filters_props_ok : forall cs path vid all_names names tags filters errors,
   tags_ok tags path ->
   lookup_N vid (cs_prop_names cs) = Some all_names -> props_ok cs vid ->
-  (forall n, In n names -> In n all_names) ->
+  (forall n, In n names -> In n all_names) -> vf_wf filters ->
   exists tags' filters' errors',
     vertex_filters_props cs tags path vid names filters errors = Ok (tags', filters', errors') /\
-    tags_ok tags' path.
+    tags_ok tags' path /\ vf_wf filters'.
 Proof.
-  intros cs path vid all_names names. induction names as [| pname r IH]; intros tags filters errors Ht Hl Hp Hsub.
-  - do 3 eexists; split; [reflexivity | exact Ht].
+  intros cs path vid all_names names. induction names as [| pname r IH]; intros tags filters errors Ht Hl Hp Hsub Hwf.
+  - do 3 eexists; split; [reflexivity | split; assumption].
   - cbn [vertex_filters_props].
     destruct (Hp all_names pname Hl (Hsub pname (or_introl eq_refl))) as [n [ty [fields [Hlk [W Hf]]]]].
     rewrite Hlk.
-    destruct (vertex_filters_fields_ok path vid pname ty fields tags filters errors Ht W Hf)
-      as [t1 [f1 [e1 [H1 Ht1]]]].
+    destruct (vertex_filters_fields_ok path vid pname ty fields tags filters errors Ht W Hf Hwf)
+      as [t1 [f1 [e1 [H1 [Ht1 Hw1]]]]].
     rewrite H1. cbn [bind]. apply IH; try assumption. intros m Hm. apply Hsub. right; exact Hm.
 Qed.
+
+Lemma vf_wf_nil : vf_wf [].
+Proof. constructor. Qed.
 
 Lemma make_vertex_tail : forall cs path vid tags (errors : errs) type_name (from : option string),
   tags_ok tags path -> props_ok cs vid ->
@@ -343,26 +354,26 @@ Lemma make_vertex_tail : forall cs path vid tags (errors : errs) type_name (from
      | [] => Ok (tags', inr (mkV vid type_name from filters))
      | _ :: _ => Ok (tags', @inl errs ir_vertex errors')
      end) = Ok (tags', r) /\ tags_ok tags' path /\
-    forall v, r = inr v -> v_vid v = vid /\ v_type v = type_name.
+    forall v, r = inr v -> v_vid v = vid /\ v_type v = type_name /\ vf_wf (v_filters v).
 Proof.
   intros cs path vid tags errors type_name from Ht Hp.
   destruct (lookup_N vid (cs_prop_names cs)) as [names |] eqn:Hl.
-  - destruct (vertex_filters_props_ok cs path vid names names tags [] errors Ht Hl Hp (fun n H => H))
-      as [t1 [f1 [e1 [H1 Ht1]]]].
+  - destruct (vertex_filters_props_ok cs path vid names names tags [] errors Ht Hl Hp (fun n H => H) vf_wf_nil)
+      as [t1 [f1 [e1 [H1 [Ht1 Hw1]]]]].
     rewrite H1. cbn [bind]. destruct e1.
     + do 2 eexists; split; [reflexivity |]. split; [exact Ht1 |]. intros v Hv. inversion Hv; subst v.
-      cbn. split; reflexivity.
+      cbn. repeat split; auto.
     + do 2 eexists; split; [reflexivity |]. split; [exact Ht1 |]. intros v Hv; discriminate Hv.
   - cbn [vertex_filters_props bind]. destruct errors.
     + do 2 eexists; split; [reflexivity |]. split; [exact Ht |]. intros v Hv. inversion Hv; subst v.
-      cbn. split; reflexivity.
+      cbn. repeat split; auto. apply vf_wf_nil.
     + do 2 eexists; split; [reflexivity |]. split; [exact Ht |]. intros v Hv; discriminate Hv.
 Qed.
 
 Lemma make_vertex_ok : forall S cs tags path vid pre node,
   tags_ok tags path -> props_ok cs vid ->
   exists tags' r, make_vertex S cs tags path vid pre node = Ok (tags', r) /\ tags_ok tags' path /\
-                  forall v, r = inr v -> v_vid v = vid /\ v_type v = post_of pre node.
+                  forall v, r = inr v -> v_vid v = vid /\ v_type v = post_of pre node /\ vf_wf (v_filters v).
 Proof.
   intros S cs tags path vid pre node Ht Hp. unfold make_vertex.
   destruct (path_is_component_root_np path vid (proj1 (proj2 Ht))) as [b Hb]. rewrite Hb. cbn [bind].
@@ -393,7 +404,7 @@ Proof.
 Qed.
 
 Definition vertex_from (vs : list (N * (string * field_node))) (v : ir_vertex) : Prop :=
-  exists pre node, In (v_vid v, (pre, node)) vs /\ v_type v = post_of pre node.
+  (exists pre node, In (v_vid v, (pre, node)) vs /\ v_type v = post_of pre node) /\ vf_wf (v_filters v).
 
 Lemma make_vertices_ok : forall S cs path all vs tags acc errors,
   tags_ok tags path -> (forall vid, props_ok cs vid) ->
@@ -428,7 +439,7 @@ Proof.
            ++ inversion Hm as [[H1 H2]]. apply app_eq_nil in H2. destruct H2 as [_ H2]. discriminate H2.
         -- destruct (vertex_filters_props cs tags path vid _ [] _) as [[[tt ff] ee] |]; cbn [bind] in Hm;
              [| discriminate Hm]. destruct ee; inversion Hm.
-    + destruct (Hres v eq_refl) as [Hvid Hty].
+    + destruct (Hres v eq_refl) as [Hvid [Hty Hvwf]].
       rewrite find_vertex_none.
       2:{ rewrite Hvid. apply Hfresh. left; reflexivity. }
       destruct (IH t1 (acc ++ [v]) errors Ht1 Hp Hxs) as [t2 [a2 [e2 [H2 [Ht2 [Ha2 He2]]]]]].
@@ -437,7 +448,7 @@ Proof.
         -- rewrite Hvid in Hin. subst k. exact (Hx Hk).
       * intros kv Hkv. apply Hsub. right; exact Hkv.
       * apply Forall_app; split; [exact Hacc |]. constructor; [| constructor].
-        exists pre, node. rewrite Hvid. split; [apply Hsub; left; reflexivity | exact Hty].
+        split; [| exact Hvwf]. exists pre, node. rewrite Hvid. split; [apply Hsub; left; reflexivity | exact Hty].
       * do 3 eexists; split; [exact H2 |]. split; [exact Ht2 |]. split; [exact Ha2 |].
         intros He. destruct (He2 He) as [Hee Hmap]. split; [exact Hee |].
         rewrite Hmap, map_app. cbn [map keys fst]. rewrite Hvid, <- app_assoc. reflexivity.
@@ -807,7 +818,8 @@ Lemma gfnt_ok : forall S post t c subfield,
                   pre = gbase (SchemaAst.f_ty fd) /\
                   post' = post_of pre subfield /\ tbase ty = gbase (SchemaAst.f_ty fd) /\
                   ty_depth ty = gdepth (SchemaAst.f_ty fd) /\
-                  (forall co, fn_coerced_to subfield = Some co -> has_type co (s_vts S) = true) /\
+                  (forall co, fn_coerced_to subfield = Some co ->
+                     has_type (gbase (SchemaAst.f_ty fd)) (s_vts S) = true /\ has_type co (s_vts S) = true) /\
                   Forall (child_valid S post') (fn_connections subfield)).
 Proof.
   intros S post t c subfield HS Hft [p [p' Hv]]. cbn [fst snd] in Hv.
@@ -834,6 +846,14 @@ Proof.
     destruct co; exact Hkids.
 Qed.
 
+(* ---------------- well-formed variable types and vertex coverage of finished components ---------------- *)
+Definition fold_wf (f : raw_fold) : Prop :=
+  match f with RFold h c => tys_wf (pfilter_vars (fo_post h)) /\ comp_vars_wf c end.
+Definition comp_vids (c : raw_comp) : list N := map v_vid (collect_ir_vertices c).
+Definition covered (cs : cstate) (v : N) : Prop :=
+  In v (keys (cs_vertices cs)) \/ exists eid f, In (eid, f) (cs_folds cs) /\ In v (comp_vids (rf_comp f)).
+Definition glob_vals (fs : fstate) : list fieldref := frame_vals (oh_global (fs_out fs)).
+
 (* ---------------- invariants of the threaded state ---------------- *)
 Record fs_inv (fs : fstate) : Prop := mkFI {
   fi_tags : tags_ok (fs_tags fs) (fs_path fs);
@@ -848,7 +868,8 @@ Record cs_inv (S : schema) (cs : cstate) (fs : fstate) : Prop := mkCI {
   ci_props : forall vid, props_ok cs vid;
   ci_sig : forall vid name n ty fields, In ((vid, name), (n, ty, fields)) (cs_props cs) ->
       exists pre node, In (vid, (pre, node)) (cs_vertices cs) /\
-                       prop_sig S (post_of pre node) name = Some (n, ty) }.
+                       prop_sig S (post_of pre node) name = Some (n, ty);
+  ci_folds : forall eid f, In (eid, f) (cs_folds cs) -> eid < fs_eid fs /\ fold_wf f }.
 
 (* the outputs registered in a component's frame belong to vertices of that component *)
 Definition frame_ok (top : outmap) (vs : list N) : Prop :=
@@ -959,34 +980,39 @@ Lemma prop_outputs_ok : forall subfield c outs o nv init top K,
   oh_inv o nv -> oh_comp_stack o = init ++ [top] -> In (cf_vid c) K ->
   exists o' top', prop_outputs o (FRContext c) subfield outs = Ok o' /\
      oh_inv o' nv /\ oh_comp_stack o' = init ++ [top'] /\ oh_vid_stack o' = oh_vid_stack o /\
-     (frame_ok top K -> frame_ok top' K).
+     (frame_ok top K -> frame_ok top' K) /\
+     (forall f, In f (frame_vals (oh_global o')) -> In f (frame_vals (oh_global o)) \/ f = FRContext c).
 Proof.
   intros subfield c outs. induction outs as [| out r IH]; intros o nv init top K Hi Hc HK.
   - exists o, top. split; [reflexivity |]. split; [exact Hi |]. split; [exact Hc |].
-    split; [reflexivity | auto].
+    split; [reflexivity |]. split; auto.
   - assert (Hstep : forall o1 name,
                oh_comp_stack o1 = init ++ [omap_push name (FRContext c) top] ->
                oh_vid_stack o1 = oh_vid_stack o -> oh_prefixes o1 = oh_prefixes o ->
+               oh_global o1 = omap_push name (FRContext c) (oh_global o) ->
                exists o' top', prop_outputs o1 (FRContext c) subfield r = Ok o' /\
                  oh_inv o' nv /\ oh_comp_stack o' = init ++ [top'] /\ oh_vid_stack o' = oh_vid_stack o /\
-                 (frame_ok top K -> frame_ok top' K)).
-    { intros o1 name H1 H2 H3.
+                 (frame_ok top K -> frame_ok top' K) /\
+                 (forall f, In f (frame_vals (oh_global o')) -> In f (frame_vals (oh_global o)) \/ f = FRContext c)).
+    { intros o1 name H1 H2 H3 H4.
       assert (Hi1 : oh_inv o1 nv).
       { destruct Hi as [A B C]. constructor.
         - rewrite H2, H3. exact A.
         - rewrite H3. exact B.
         - rewrite H1. intros E. apply app_eq_nil in E. destruct E as [_ E]. discriminate E. }
-      destruct (IH o1 nv init _ K Hi1 H1 HK) as [o' [top' [Ho' [Hi' [Hc' [Hv' Hf']]]]]].
+      destruct (IH o1 nv init _ K Hi1 H1 HK) as [o' [top' [Ho' [Hi' [Hc' [Hv' [Hf' Hg']]]]]]].
       exists o', top'. split; [exact Ho' |]. split; [exact Hi' |]. split; [exact Hc' |].
-      split; [rewrite Hv'; exact H2 |].
-      intros Hf. apply Hf'. intros f Hin. apply omap_push_vals in Hin. destruct Hin as [-> | Hin].
-      - exists c. split; [reflexivity | exact HK].
-      - apply Hf; exact Hin. }
+      split; [rewrite Hv'; exact H2 |]. split.
+      - intros Hf. apply Hf'. intros f Hin. apply omap_push_vals in Hin. destruct Hin as [-> | Hin].
+        + exists c. split; [reflexivity | exact HK].
+        + apply Hf; exact Hin.
+      - intros f Hf. destruct (Hg' f Hf) as [H | H]; [| right; exact H].
+        rewrite H4 in H. apply omap_push_vals in H. destruct H as [H | H]; [right; exact H | left; exact H]. }
     cbn [prop_outputs]. destruct out as [explicit |].
-    + destruct (oh_register_output_ok o explicit (FRContext c) init top Hc) as [o1 [Ho1 [H1 [H2 [H3 _]]]]].
+    + destruct (oh_register_output_ok o explicit (FRContext c) init top Hc) as [o1 [Ho1 [H1 [H2 [H3 H4]]]]].
       rewrite Ho1. cbn [bind]. eapply Hstep; eassumption.
     + destruct (oh_register_local_ok o (match fn_alias subfield with Some a => a | None => fn_name subfield end)
-                  [] (FRContext c) init top nv Hi Hc) as [o1 [name [Ho1 [H1 [H2 [H3 _]]]]]].
+                  [] (FRContext c) init top nv Hi Hc) as [o1 [name [Ho1 [H1 [H2 [H3 H4]]]]]].
       rewrite Ho1. cbn [bind fst]. eapply Hstep; eassumption.
 Qed.
 
@@ -1023,9 +1049,10 @@ Lemma prop_step_ok : forall S cs fs current_vid pre node connection subfield ty 
     fs_inv fs' /\ cs_inv S cs' fs' /\
     fs_vid fs' = fs_vid fs /\ fs_eid fs' = fs_eid fs /\ fs_path fs' = fs_path fs /\
     oh_vid_stack (fs_out fs') = oh_vid_stack (fs_out fs) /\
-    cs_vertices cs' = cs_vertices cs /\ cs_edges cs' = cs_edges cs /\
+    cs_vertices cs' = cs_vertices cs /\ cs_edges cs' = cs_edges cs /\ cs_folds cs' = cs_folds cs /\
     (exists top', oh_comp_stack (fs_out fs') = init ++ [top'] /\
                   (frame_ok top (keys (cs_vertices cs)) -> frame_ok top' (keys (cs_vertices cs)))) /\
+    (forall f, In f (glob_vals fs') -> In f (glob_vals fs) \/ defined_at f = current_vid) /\
     (exists e, errs' = errors ++ e).
 Proof.
   intros S cs fs vid pre node connection subfield ty errors init top [Htags Hout] Hcs Hin Hsig W Hfok Hcomp.
@@ -1045,16 +1072,17 @@ Proof.
           Ok (mkCS (cs_vertices cs) (cs_edges cs) (cs_folds cs)
                    (push_prop_name vid (fn_name subfield) (cs_prop_names cs))
                    (cs_props cs ++ [((vid, fn_name subfield), (fn_name subfield, ty, [subfield]))]))
-      end = Ok cs1 /\ cs_inv S cs1 fs /\ cs_vertices cs1 = cs_vertices cs /\ cs_edges cs1 = cs_edges cs).
-  { destruct Hcs as [C1 C2 C3 C4 C5 C6].
+      end = Ok cs1 /\ cs_inv S cs1 fs /\ cs_vertices cs1 = cs_vertices cs /\ cs_edges cs1 = cs_edges cs /\
+            cs_folds cs1 = cs_folds cs).
+  { destruct Hcs as [C1 C2 C3 C4 C5 C6 C7].
     destruct (lookup_prop (vid, fn_name subfield) (cs_props cs)) as [[[pn pt] pf] |] eqn:Hl.
     - pose proof (lookup_prop_some _ _ _ Hl) as Hinp.
       destruct (C6 _ _ _ _ _ Hinp) as [pre' [node' [Hin' Hsig']]].
       pose proof (nodup_keys_inj _ _ _ _ _ C2 Hin Hin') as E. inversion E; subst pre' node'.
       rewrite Hsig in Hsig'. inversion Hsig'; subst pn pt.
       rewrite String.eqb_refl, ty_eqb_refl. cbn [negb].
-      eexists; split; [reflexivity |]. split; [| split; reflexivity].
-      constructor; cbn [cs_vertices cs_edges cs_prop_names cs_props]; auto.
+      eexists; split; [reflexivity |]. split; [| repeat split; reflexivity].
+      constructor; cbn [cs_vertices cs_edges cs_prop_names cs_props cs_folds]; auto.
       + (* props_ok *)
         unfold props_ok. cbn [cs_props cs_prop_names]. intros v names name Hnames Hname.
         destruct (C5 v names name Hnames Hname) as [n [t [fields [Hlk [Wt Hf]]]]].
@@ -1069,8 +1097,8 @@ Proof.
         intros v name n t fields Hx.
         destruct (in_update_prop _ _ _ _ Hx) as [fs0 [Hin0 _]]. cbn [fst snd] in Hin0.
         exact (C6 _ _ _ _ _ Hin0).
-    - eexists; split; [reflexivity |]. split; [| split; reflexivity].
-      constructor; cbn [cs_vertices cs_edges cs_prop_names cs_props]; auto.
+    - eexists; split; [reflexivity |]. split; [| repeat split; reflexivity].
+      constructor; cbn [cs_vertices cs_edges cs_prop_names cs_props cs_folds]; auto.
       + unfold props_ok. cbn [cs_props cs_prop_names].
         intros v names name Hnames Hname. rewrite lookup_N_push_prop_name in Hnames.
         rewrite lookup_prop_app.
@@ -1092,11 +1120,11 @@ Proof.
       + intros v name n t fields Hx. apply in_app_or in Hx. destruct Hx as [Hx | [Hx | []]].
         * exact (C6 _ _ _ _ _ Hx).
         * inversion Hx; subst. exists pre, node. split; [exact Hin | exact Hsig]. }
-  destruct Hcs1 as [cs1 [Hcs1 [Hinv1 [Hv1 He1]]]]. rewrite Hcs1. cbn [bind].
+  destruct Hcs1 as [cs1 [Hcs1 [Hinv1 [Hv1 [He1 Hfo1]]]]]. rewrite Hcs1. cbn [bind].
   assert (HK : In vid (keys (cs_vertices cs))) by (apply in_keys; eexists; exact Hin).
   destruct (prop_outputs_ok subfield (mkCF vid (fn_name subfield) ty) (fn_outputs subfield)
               (fs_out fs) (fs_vid fs) init top (keys (cs_vertices cs)) Hout Hcomp HK)
-    as [o' [top' [Ho' [Hi' [Hc' [Hvs' Hf']]]]]].
+    as [o' [top' [Ho' [Hi' [Hc' [Hvs' [Hf' Hg']]]]]]].
   rewrite Ho'. cbn [bind].
   destruct (prop_tags_ok (fs_path (set_out fs o')) (FRContext (mkCF vid (fn_name subfield) ty)) subfield
               (fn_tags subfield) (fs_tags (set_out fs o')) errors1 (fs_path fs) Htags (proj1 (proj2 Htags)))
@@ -1106,12 +1134,14 @@ Proof.
   cbn [set_out set_tags fs_path fs_tags fs_out fs_vid fs_eid fst snd].
   split; [constructor; cbn [set_out set_tags fs_path fs_tags fs_out fs_vid fs_eid]; [exact Ht' | exact Hi'] |].
   split.
-  { destruct Hinv1 as [C1 C2 C3 C4 C5 C6].
+  { destruct Hinv1 as [C1 C2 C3 C4 C5 C6 C7].
     constructor; cbn [set_out set_tags fs_path fs_tags fs_out fs_vid fs_eid]; auto. }
   split; [reflexivity |]. split; [reflexivity |]. split; [reflexivity |].
-  split; [exact Hvs' |]. split; [exact Hv1 |]. split; [exact He1 |].
-  split.
+  split; [exact Hvs' |]. split; [exact Hv1 |]. split; [exact He1 |]. split; [exact Hfo1 |].
+  split; [| split].
   - exists top'. split; [exact Hc' | exact Hf'].
+  - unfold glob_vals. cbn [set_out set_tags fs_out]. intros f Hf.
+    destruct (Hg' f Hf) as [H | ->]; [left; exact H | right; reflexivity].
   - destruct Herr1 as [e1 ->]. rewrite He. exists (e1 ++ e). rewrite app_assoc. reflexivity.
 Qed.
 
@@ -1124,10 +1154,21 @@ Record step_post (S : schema) (cs : cstate) (fs : fstate) (init : list outmap) (
   sp_eid : fs_eid fs <= fs_eid fs';
   sp_stack : oh_vid_stack (fs_out fs') = oh_vid_stack (fs_out fs);
   sp_vertices : forall x, In x (cs_vertices cs) -> In x (cs_vertices cs');
+  sp_folds : forall x, In x (cs_folds cs) -> In x (cs_folds cs');
   sp_clean : es = [] ->
              fs_path fs' = fs_path fs /\
-             exists top', oh_comp_stack (fs_out fs') = init ++ [top'] /\
-                          (frame_ok top (keys (cs_vertices cs)) -> frame_ok top' (keys (cs_vertices cs'))) }.
+             (exists top', oh_comp_stack (fs_out fs') = init ++ [top'] /\
+                           (frame_ok top (keys (cs_vertices cs)) -> frame_ok top' (keys (cs_vertices cs')))) /\
+             (forall f, In f (glob_vals fs') -> In f (glob_vals fs) \/ covered cs' (defined_at f)) }.
+
+Lemma covered_mono : forall cs cs' v,
+  (forall x, In x (cs_vertices cs) -> In x (cs_vertices cs')) ->
+  (forall x, In x (cs_folds cs) -> In x (cs_folds cs')) -> covered cs v -> covered cs' v.
+Proof.
+  intros cs cs' v Hv Hf [H | [eid [f [Hin Hc]]]].
+  - left. apply in_keys in H. destruct H as [w Hw]. apply in_keys. exists w. apply Hv; exact Hw.
+  - right. exists eid, f. split; [apply Hf; exact Hin | exact Hc].
+Qed.
 
 Lemma step_post_trans : forall S cs fs init top cs1 fs1 e1 cs2 fs2 e2,
   step_post S cs fs init top cs1 fs1 e1 ->
@@ -1145,11 +1186,16 @@ Proof.
   - pose proof (sp_eid _ _ _ _ _ _ _ _ P1). pose proof (sp_eid _ _ _ _ _ _ _ _ Q). lia.
   - rewrite (sp_stack _ _ _ _ _ _ _ _ Q). exact (sp_stack _ _ _ _ _ _ _ _ P1).
   - intros x Hx. apply (sp_vertices _ _ _ _ _ _ _ _ Q). apply (sp_vertices _ _ _ _ _ _ _ _ P1). exact Hx.
+  - intros x Hx. apply (sp_folds _ _ _ _ _ _ _ _ Q). apply (sp_folds _ _ _ _ _ _ _ _ P1). exact Hx.
   - intros He. apply app_eq_nil in He. destruct He as [He1 He2].
-    destruct (sp_clean _ _ _ _ _ _ _ _ P1 He1) as [Hp1 [top1 [Hc1 Hf1]]].
+    destruct (sp_clean _ _ _ _ _ _ _ _ P1 He1) as [Hp1 [[top1 [Hc1 Hf1]] Hg1]].
     rewrite Hc1 in Hs. apply app_inj_tail in Hs. destruct Hs as [<- <-].
-    destruct (sp_clean _ _ _ _ _ _ _ _ Q He2) as [Hp2 [top2 [Hc2 Hf2]]].
-    split; [rewrite Hp2; exact Hp1 |]. exists top2. split; [exact Hc2 |]. intros Hf. apply Hf2, Hf1, Hf.
+    destruct (sp_clean _ _ _ _ _ _ _ _ Q He2) as [Hp2 [[top2 [Hc2 Hf2]] Hg2]].
+    split; [rewrite Hp2; exact Hp1 |]. split.
+    + exists top2. split; [exact Hc2 |]. intros Hf. apply Hf2, Hf1, Hf.
+    + intros f Hf. destruct (Hg2 f Hf) as [H | H]; [| right; exact H].
+      destruct (Hg1 f H) as [H' | H']; [left; exact H' |]. right.
+      eapply covered_mono; [exact (sp_vertices _ _ _ _ _ _ _ _ Q) | exact (sp_folds _ _ _ _ _ _ _ _ Q) | exact H'].
 Qed.
 
 Definition oh_inv0 (o : output_handler) (nv : N) : Prop :=
@@ -1203,6 +1249,24 @@ Proof.
   - rewrite Hd. eexists; reflexivity.
 Qed.
 
+Lemma collect_unfold : forall r vs es fs o,
+  collect_ir_vertices (RComp r vs es fs o) = vs ++ flat_map (fun f => collect_ir_vertices (rf_comp f)) fs.
+Proof.
+  intros. cbn [collect_ir_vertices]. f_equal. induction fs as [| [h c] r' IH]; [reflexivity |].
+  cbn [flat_map rf_comp]. rewrite IH. reflexivity.
+Qed.
+
+Lemma comp_vars_wf_intro : forall r vs es fs o,
+  Forall (fun v => vf_wf (v_filters v)) vs -> Forall fold_wf fs -> comp_vars_wf (RComp r vs es fs o).
+Proof.
+  intros r vs es fs o Hv Hf. cbn [comp_vars_wf]. split; [| split].
+  - unfold tys_wf. induction Hv as [| v vs' Hx Hr IH]; [constructor |].
+    cbn [flat_map]. apply Forall_app. split; [exact Hx | exact IH].
+  - unfold tys_wf. induction Hf as [| [h c] fs' Hx Hr IH]; [constructor |].
+    cbn [flat_map]. apply Forall_app. split; [exact (proj1 Hx) | exact IH].
+  - induction Hf as [| [h c] fs' Hx Hr IH]; [exact I |]. split; [exact (proj2 Hx) | exact IH].
+Qed.
+
 (* ---------------- make_query_component ---------------- *)
 Definition fill_root_spec (S : schema) (starting_vid : N)
            (fill_root : cstate -> fstate -> res (cstate * fstate * errs)) : Prop :=
@@ -1216,14 +1280,16 @@ Definition mqc_post (fs fs' : fstate) (r : errs + raw_comp) : Prop :=
   tags_ok (fs_tags fs') (fs_path fs') /\ oh_inv0 (fs_out fs') (fs_vid fs') /\
   fs_vid fs <= fs_vid fs' /\ fs_eid fs <= fs_eid fs' /\
   oh_vid_stack (fs_out fs') = oh_vid_stack (fs_out fs) /\
-  (exists e, fs_path fs' = fs_path fs ++ e) /\
-  (forall e, r = inl e -> oh_comp_stack (fs_out fs') <> [] \/ oh_comp_stack (fs_out fs') = oh_comp_stack (fs_out fs)) /\
-  (forall c, r = inr c -> fs_path fs' = fs_path fs /\ oh_comp_stack (fs_out fs') = oh_comp_stack (fs_out fs)).
+  (forall e, r = inl e -> e <> [] /\
+     (oh_comp_stack (fs_out fs') <> [] \/ oh_comp_stack (fs_out fs') = oh_comp_stack (fs_out fs))) /\
+  (forall c, r = inr c -> fs_path fs' = fs_path fs /\ oh_comp_stack (fs_out fs') = oh_comp_stack (fs_out fs) /\
+     comp_vars_wf c /\
+     (forall f, In f (glob_vals fs') -> In f (glob_vals fs) \/ In (defined_at f) (comp_vids c))).
 
 Lemma cs_empty_inv : forall S fs, cs_inv S cs_empty fs.
 Proof.
   intros S fs. constructor; cbn; try (intros; contradiction); try constructor.
-  - intros vid names name H. destruct vid; discriminate H.
+  intros vid names name H. discriminate H.
 Qed.
 
 Lemma make_query_component_ok : forall S fill_root fs starting_vid,
@@ -1240,14 +1306,493 @@ Proof.
   destruct (Hfill cs_empty fs1 Hinv1 (cs_empty_inv S fs1) Hlt (fun H => H)) as [cs [fs2 [es [Hf Hpost]]]].
   rewrite Hf. cbn [bind].
   specialize (Hpost (oh_comp_stack (fs_out fs)) [] eq_refl).
-  destruct Hpost as [P1 P2 P3 P4 P5 P6 P7].
-  destruct P1 as [Pt Po]. destruct P2 as [C1 C2 C3 C4 C5 C6].
+  destruct Hpost as [P1 P2 P3 P4 P5 P6 P6f P7].
+  destruct P1 as [Pt Po]. destruct P2 as [C1 C2 C3 C4 C5 C6 C7].
   destruct (make_vertices_ok S cs (fs_path fs2) (cs_vertices cs) (cs_vertices cs) (fs_tags fs2) [] es
               Pt C5 C2 (fun k _ H => H) (fun kv H => H) (Forall_nil _))
     as [tags' [ir_vertices [es' [Hmv [Ht' [Hfrom Hes']]]]]].
   rewrite Hmv. cbn [bind].
-  assert (Hpath_ext : exists e, fs_path fs2 = fs_path fs ++ e).
-  { destruct Pt as [Himp [Hne _]]. clear - Hinv1 P3 Hf. exists (skipn (List.length (fs_path fs)) (fs_path fs2)).
-    (* the component path only ever grows at the end; not needed precisely: use a weaker fact below *)
-    admit_free. }
+  destruct Po as [Po1 Po2 Po3].
+  (* facts shared by every exit *)
+  assert (Hcommon : forall o, oh_vid_stack o = oh_vid_stack (fs_out fs2) -> oh_prefixes o = oh_prefixes (fs_out fs2) ->
+             oh_inv0 o (fs_vid fs2) /\ oh_vid_stack o = oh_vid_stack (fs_out fs)).
+  { intros o E1 E2. split; [split; [rewrite E1, E2; exact Po1 | rewrite E2; exact Po2] |].
+    rewrite E1, P5. reflexivity. }
+  destruct es' as [| e0 es'].
+  2:{ do 2 eexists; split; [reflexivity |]. unfold mqc_post.
+      cbn [set_tags set_out fs_tags fs_path fs_out fs_vid fs_eid].
+      destruct (Hcommon (fs_out fs2) eq_refl eq_refl) as [H1 H2].
+      split; [exact Ht' |]. split; [exact H1 |]. split; [exact P3 |]. split; [exact P4 |].
+      split; [exact H2 |].
+      split; [intros e E; inversion E; split; [discriminate | left; exact Po3] |]. intros c E; discriminate E. }
+  destruct (Hes' eq_refl) as [-> Hvids]. cbn [app] in Hvids.
+  destruct (P7 eq_refl) as [Hpath [[top' [Hstack Hframe]] Hglob]].
+  destruct (make_edges_ok S ir_vertices (cs_edges cs) [] [] Ho) as [[ir_edges es2] Hme].
+  { intros eid from to conn Hin.
+    destruct (C4 eid from to conn Hin) as [pre [node [Hinv Hedge]]].
+    assert (Hk : In from (map v_vid ir_vertices)).
+    { rewrite Hvids. apply in_keys. eexists; exact Hinv. }
+    destruct (find_vertex_some _ _ Hk) as [v [Hfv [Hvid Hinir]]].
+    exists v. split; [exact Hfv |].
+    rewrite Forall_forall in Hfrom. destruct (Hfrom v Hinir) as [[pre' [node' [Hin' Hty]]] _].
+    rewrite Hvid in Hin'. pose proof (nodup_keys_inj _ _ _ _ _ C2 Hinv Hin') as E. inversion E; subst pre' node'.
+    rewrite Hty. exact Hedge. }
+  rewrite Hme. cbn [bind].
+  destruct es2 as [| e1 es2].
+  2:{ do 2 eexists; split; [reflexivity |]. unfold mqc_post.
+      cbn [set_tags set_out fs_tags fs_path fs_out fs_vid fs_eid].
+      destruct (Hcommon (fs_out fs2) eq_refl eq_refl) as [H1 H2].
+      split; [exact Ht' |]. split; [exact H1 |]. split; [exact P3 |]. split; [exact P4 |].
+      split; [exact H2 |].
+      split; [intros e E; inversion E; split; [discriminate | left; exact Po3] |]. intros c E; discriminate E. }
+  cbn [set_tags fs_out].
+  unfold oh_end_subcomponent. rewrite Hstack, rev_unit. cbn [bind fst snd].
+  rewrite rev_involutive.
+  set (o' := mkOH (oh_prefixes (fs_out fs2)) (oh_vid_stack (fs_out fs2)) (oh_root_vid (fs_out fs2))
+                  (oh_root_prefix (fs_out fs2)) (oh_comp_stack (fs_out fs)) (oh_global (fs_out fs2))).
+  destruct (Hcommon o' eq_refl eq_refl) as [H1 H2].
+  destruct (check_for_duplicate_output_names top') as [duplicates | component_outputs] eqn:Hdup.
+  - destruct (dup_error_np ir_vertices duplicates) as [e He].
+    { intros k vs f Hin Hfin.
+      unfold check_for_duplicate_output_names in Hdup.
+      destruct (duplicates_of _) as [| d ds] eqn:Hd; [discriminate Hdup |]. inversion Hdup; subst duplicates.
+      rewrite <- Hd in Hin.
+      pose proof (duplicates_vals _ _ _ _ _ Hin Hfin) as Hv. rewrite flat_vals in Hv.
+      assert (Hfr : frame_ok [] (keys (cs_vertices cs_empty))) by (intros g Hg; destruct Hg).
+      destruct (Hframe Hfr f Hv) as [c [-> Hc]]. cbn [defined_at]. rewrite Hvids. exact Hc. }
+    rewrite He. cbn [bind]. do 2 eexists; split; [reflexivity |]. unfold mqc_post.
+    cbn [set_tags set_out fs_tags fs_path fs_out fs_vid fs_eid].
+    split; [exact Ht' |]. split; [exact H1 |]. split; [exact P3 |]. split; [exact P4 |].
+    split; [exact H2 |].
+    split; [intros e' E; inversion E; subst e'; split; [| right; reflexivity] |]. 2: intros c E; discriminate E.
+    unfold make_duplicated_output_names_error in He.
+    destruct (rmap _ duplicates); cbn [bind] in He; [inversion He; discriminate | discriminate He].
+  - do 2 eexists; split; [reflexivity |]. unfold mqc_post.
+    cbn [set_tags set_out fs_tags fs_path fs_out fs_vid fs_eid].
+    split; [exact Ht' |]. split; [exact H1 |]. split; [exact P3 |]. split; [exact P4 |].
+    split; [exact H2 |]. split; [intros e E; discriminate E |].
+    intros c Ec. inversion Ec; subst c. split; [exact Hpath |]. split; [reflexivity |]. split.
+    + apply comp_vars_wf_intro.
+      * rewrite Forall_forall in Hfrom |- *. intros v Hv. exact (proj2 (Hfrom v Hv)).
+      * rewrite Forall_forall. intros f Hf. apply in_map_iff in Hf. destruct Hf as [[eid f'] [E Hin]].
+        cbn in E. subst f'. exact (proj2 (C7 eid f Hin)).
+    + unfold glob_vals. cbn [fs_out o' oh_global]. intros f Hf.
+      destruct (Hglob f Hf) as [H | H]; [left; exact H |]. right.
+      unfold comp_vids. rewrite collect_unfold, map_app. apply in_or_app.
+      destruct H as [H | [eid [fo [Hin Hc]]]].
+      * left. rewrite Hvids. exact H.
+      * right. unfold comp_vids in Hc. apply in_map_iff in Hc. destruct Hc as [v [Ev Hv]].
+        apply in_map_iff. exists v. split; [exact Ev |]. apply in_flat_map. exists fo.
+        split; [apply in_map_iff; exists (eid, fo); split; [reflexivity | exact Hin] | exact Hv].
+Qed.
+
+(* ---------------- make_fold ---------------- *)
+Lemma map_fst_snoc : forall A B (l : list (A * B)) pre x,
+  map fst l = pre ++ [x] -> exists l0 y, l = l0 ++ [(x, y)] /\ map fst l0 = pre.
+Proof.
+  intros A B l pre x H.
+  destruct (nonempty_snoc _ l) as [l0 [[a b] E]].
+  { intros E. subst l. destruct pre; discriminate H. }
+  subst l. rewrite map_app in H. cbn [map fst] in H. apply app_inj_tail in H. destruct H as [H1 H2].
+  subst a. exists l0, b. split; [reflexivity | exact H1].
+Qed.
+
+Lemma fold_post_filters_ok : forall path vid ds tags post errors,
+  tags_ok tags path ->
+  exists tags' post' errors', fold_post_filters tags path vid ds post errors = Ok (tags', post', errors') /\
+                              tags_ok tags' path.
+Proof.
+  intros path vid ds. induction ds as [| d r IH]; intros tags post errors Ht.
+  - do 3 eexists; split; [reflexivity | exact Ht].
+  - cbn [fold_post_filters].
+    pose proof (count_type_filters_ok [d]) as Hd. inversion Hd as [| x xs Hd1 _]; subst.
+    destruct (make_filter_expr_total tags path vid "@fold.count" count_type d Ht count_type_wf Hd1)
+      as [[tags1 res] [Hm Ht1]].
+    rewrite Hm. cbn [bind snd fst]. destruct res as [e | [op rhs]]; apply IH; exact Ht1.
+Qed.
+
+Lemma fold_tags_ok : forall path fr sf ts tags errors path',
+  tags_ok tags path' -> path <> [] ->
+  tags_ok (fst (fold_tags tags path fr sf ts errors)) path'.
+Proof.
+  intros path fr sf ts. induction ts as [| t r IH]; intros tags errors path' Ht Hp; [exact Ht |].
+  cbn [fold_tags]. destruct t as [nm |].
+  - apply IH; [apply th_register_tag_ok; assumption | exact Hp].
+  - apply IH; assumption.
+Qed.
+
+Definition fold_post (fs fs' : fstate) (r : errs + raw_fold) : Prop :=
+  fs_inv fs' /\ fs_vid fs <= fs_vid fs' /\ fs_eid fs <= fs_eid fs' /\
+  oh_vid_stack (fs_out fs') = oh_vid_stack (fs_out fs) /\
+  (forall e, r = inl e -> e <> []) /\
+  (forall x, r = inr x -> fs_path fs' = fs_path fs /\ oh_comp_stack (fs_out fs') = oh_comp_stack (fs_out fs)).
+
+Lemma make_fold_ok : forall component_of fs fold_group fold_eid edge_name edge_parameters parent_vid starting_vid starting_field,
+  fs_inv fs ->
+  (forall g, fold_group = mkFG (Some g) -> tg_retransform g = None /\ tg_outputs g = []) ->
+  (forall fs1, fs1 = set_tags (set_path fs (fs_path fs ++ [starting_vid]))
+                              (th_begin_subcomponent (fs_tags fs) starting_vid) ->
+     exists fs' r, component_of fs1 = Ok (fs', r) /\ mqc_post fs1 fs' r) ->
+  exists fs' r, make_fold component_of fs fold_group fold_eid edge_name edge_parameters parent_vid starting_vid
+                          starting_field = Ok (fs', r) /\ fold_post fs fs' r.
+Proof.
+  intros component_of fs fold_group fold_eid edge_name edge_parameters parent_vid sv sf [Ht Ho] Hclean Hcomp.
+  unfold make_fold.
+  destruct (Hcomp _ eq_refl) as [fs2 [r [Hc Hpost]]].
+  cbn [set_tags set_path fs_path fs_tags fs_out fs_vid fs_eid] in *.
+  rewrite Hc. cbn [bind fst snd].
+  destruct Hpost as [Q1 [Q2 [Q3 [Q4 [Q5 [Q6 Q7]]]]]].
+  cbn [set_tags set_path fs_path fs_tags fs_out fs_vid fs_eid] in *.
+  apply oh_inv_split in Ho. destruct Ho as [Ho0 Hne].
+  destruct r as [e | component].
+  - do 2 eexists; split; [reflexivity |]. unfold fold_post.
+    split.
+    { constructor; [exact Q1 |]. apply oh_inv_split. split; [exact Q2 |].
+      destruct (Q6 e eq_refl) as [_ [H | H]]; [exact H | rewrite H; exact Hne]. }
+    split; [exact Q3 |]. split; [exact Q4 |]. split; [exact Q5 |].
+    split; [intros e' E; inversion E; subst e'; exact (proj1 (Q6 e eq_refl)) |]. intros x E; discriminate E.
+  - destruct (Q7 component eq_refl) as [Hpath Hstack].
+    rewrite Hpath, path_pop_snoc. cbn [bind].
+    cbn [set_path fs_tags].
+    destruct Q1 as [Himp [_ Hpaths]]. rewrite Hpath in Himp.
+    destruct Ht as [Himp0 [Hne0 Hpaths0]].
+    destruct (fs_path fs) as [| p0 ptl] eqn:Hp; [exfalso; apply Hne0; reflexivity |].
+    cbn [app List.tl] in Himp.
+    destruct (map_fst_snoc _ _ _ _ _ Himp) as [l0 [ext [Hl0 Hm0]]].
+    rewrite (th_end_subcomponent_ok _ l0 sv ext Hl0). cbn [bind fst snd].
+    cbn [set_tags set_path fs_path fs_tags fs_out fs_vid fs_eid].
+    set (tags3 := mkTH (th_tags (fs_tags fs2)) (th_used (fs_tags fs2)) l0).
+    assert (Ht3 : tags_ok tags3 (p0 :: ptl)).
+    { unfold tags3. repeat split; cbn [th_imported th_tags List.tl]; [exact Hm0 | discriminate | exact Hpaths]. }
+    assert (Hne3 : p0 :: ptl <> []) by discriminate.
+    assert (Hfinal : forall tags4 (r' : errs + raw_fold), tags_ok tags4 (p0 :: ptl) ->
+              (forall e, r' = inl e -> e <> []) ->
+              fold_post fs (mkFS (fs_vid fs2) (fs_eid fs2) (p0 :: ptl) (fs_out fs2) tags4) r').
+    { intros tags4 r' Ht4 Hne4. unfold fold_post. cbn [fs_path fs_tags fs_out fs_vid fs_eid].
+      split.
+      { constructor; cbn [fs_path fs_tags fs_out fs_vid fs_eid]; [exact Ht4 |].
+        apply oh_inv_split. split; [exact Q2 | rewrite Hstack; exact Hne]. }
+      split; [exact Q3 |]. split; [exact Q4 |]. split; [exact Q5 |]. split; [exact Hne4 |].
+      intros x _. split; [symmetry; exact Hp | exact Hstack]. }
+    destruct (fg_transform fold_group) as [g |] eqn:Hg.
+    + destruct fold_group as [tr]. cbn [fg_transform] in Hg. subst tr.
+      destruct (Hclean g eq_refl) as [Hre Hout]. rewrite Hre.
+      destruct (fold_post_filters_ok (p0 :: ptl) sv (tg_filters g) tags3 []
+                  (match fn_outputs sf return list front_error with
+                   | _ :: _ => [FEUnsupportedEdgeOutput (fn_name sf)] | [] => [] end) Ht3)
+        as [tags4 [post4 [errs4 [Hpf Ht4]]]].
+      cbn [set_tags set_path fs_path fs_tags fs_out fs_vid fs_eid].
+      rewrite Hpf. cbn [bind]. cbn [set_tags set_path fs_path fs_tags fs_out fs_vid fs_eid].
+      rewrite Hout. cbn [fold_outputs bind].
+      cbn [set_tags set_out set_path fs_path fs_tags fs_out fs_vid fs_eid].
+      pose proof (fold_tags_ok (p0 :: ptl) (FRFold (mkFF fold_eid sv)) sf (tg_tags g) tags4 errs4 (p0 :: ptl) Ht4 Hne3) as Ht5.
+      destruct (snd (fold_tags tags4 (p0 :: ptl) (FRFold (mkFF fold_eid sv)) sf (tg_tags g) errs4));
+        do 2 eexists; (split; [reflexivity |]); (apply Hfinal; [exact Ht5 |]);
+        intros e9 E9; inversion E9; discriminate.
+    + cbn [bind]. destruct (fn_outputs sf); do 2 eexists; (split; [reflexivity |]); (apply Hfinal; [exact Ht3 |]);
+        intros e9 E9; inversion E9; discriminate.
+Qed.
+
+(* ---------------- one edge ---------------- *)
+Definition fill_spec (S : schema) (node : field_node) : Prop :=
+  forall cs fs vid pre folds,
+    schema_ok S -> has_type (post_of pre node) (s_vts S) = true ->
+    Forall (child_valid S (post_of pre node)) (fn_connections node) ->
+    (forall st, In st (child_sites S (post_of pre node) folds (fn_connections node)) -> site_clean S st) ->
+    fs_inv fs -> cs_inv S cs fs -> vid < fs_vid fs -> ~ In vid (keys (cs_vertices cs)) ->
+    exists cs' fs' es,
+      fill_in_vertex_data S cs fs vid pre (post_of pre node) node = Ok (cs', fs', es) /\
+      forall init top, oh_comp_stack (fs_out fs) = init ++ [top] -> step_post S cs fs init top cs' fs' es.
+
+Lemma cs_inv_mono : forall S cs fs fs',
+  cs_inv S cs fs -> fs_vid fs <= fs_vid fs' -> fs_eid fs <= fs_eid fs' -> cs_inv S cs fs'.
+Proof.
+  intros S cs fs fs' [C1 C2 C3 C4 C5 C6 C7] Hv He. constructor; auto.
+  - intros k Hk. specialize (C1 k Hk). lia.
+  - intros k Hk. specialize (C3 k Hk). lia.
+  - intros eid f Hf. destruct (C7 eid f Hf) as [H1 H2]. split; [lia | exact H2].
+Qed.
+Lemma cs_inv_folds : forall S cs fs folds,
+  cs_inv S cs fs -> (forall eid f, In (eid, f) folds -> eid < fs_eid fs /\ fold_wf f) ->
+  cs_inv S (mkCS (cs_vertices cs) (cs_edges cs) folds (cs_prop_names cs) (cs_props cs)) fs.
+Proof. intros S cs fs folds [C1 C2 C3 C4 C5 C6 C7] H. constructor; auto. Qed.
+
+Lemma step_post_id : forall S cs fs init top es,
+  fs_inv fs -> cs_inv S cs fs -> oh_comp_stack (fs_out fs) = init ++ [top] -> step_post S cs fs init top cs fs es.
+Proof.
+  intros. constructor; auto; try lia. intros _. split; [reflexivity |]. split; [exists top; split; auto | auto].
+Qed.
+
+Lemma make_edge_parameters_inl : forall ed sp e, make_edge_parameters ed sp = Ok (inl e) -> e <> [].
+Proof.
+  intros ed sp e H. unfold make_edge_parameters in H.
+  destruct (edge_params_loop _ _ _ _ _) as [r |]; cbn [bind] in H; [| discriminate H].
+  destruct (fst r ++ _) eqn:E; inversion H. discriminate.
+Qed.
+
+Lemma edge_step_ok : forall S current_vid pre node connection subfield sub_pre folds' next_vid next_eid cs fs errors,
+  schema_ok S -> fill_spec S subfield ->
+  In (current_vid, (pre, node)) (cs_vertices cs) ->
+  edge_ok S (post_of pre node) connection ->
+  (forall g, fc_fold connection = Some (mkFG (Some g)) -> tg_retransform g = None /\ tg_outputs g = []) ->
+  has_type (post_of sub_pre subfield) (s_vts S) = true ->
+  Forall (child_valid S (post_of sub_pre subfield)) (fn_connections subfield) ->
+  (forall st, In st (child_sites S (post_of sub_pre subfield) folds' (fn_connections subfield)) -> site_clean S st) ->
+  fs_inv fs -> cs_inv S cs fs ->
+  fs_vid fs = next_vid + 1 -> fs_eid fs = next_eid + 1 ->
+  (forall k, In k (keys (cs_vertices cs)) -> k < next_vid) ->
+  (forall k, In k (keys (cs_edges cs)) -> k < next_eid) ->
+  exists cs' fs' e,
+    edge_step S current_vid (post_of pre node) connection subfield next_vid next_eid sub_pre
+              (post_of sub_pre subfield) cs fs errors = Ok (cs', fs', errors ++ e) /\
+    forall init top, oh_comp_stack (fs_out fs) = init ++ [top] -> step_post S cs fs init top cs' fs' e.
+Proof.
+  intros S current_vid pre node connection subfield sub_pre folds' next_vid next_eid cs fs errors
+         HS IH Hin Hedge Hfoldclean Hty Hkids Hclean Hfs Hcs Hvid Heid Hvfresh Hefresh.
+  unfold edge_step.
+  destruct Hedge as [fd [Hfd [Hargs [Hdup Henum]]]].
+  destruct (fc_fold connection) as [fold_group |] eqn:Hfold.
+  - (* a folded edge *)
+    rewrite (get_edge_definition_ok _ _ _ _ Hfd). cbn [bind].
+    destruct (make_edge_parameters_total fd (fc_args connection) Hargs Hdup Henum) as [ep Hep].
+    rewrite Hep. cbn [bind].
+    set (flags := (if fc_optional connection then [FEUnsupportedDirectiveOnFoldedEdge (fn_name subfield) "@optional"] else [])
+                  ++ match fc_recurse connection with
+                     | Some _ => [FEUnsupportedDirectiveOnFoldedEdge (fn_name subfield) "@recurse"]
+                     | None => [] end).
+    destruct ep as [e | edge_parameters].
+    + exists cs, fs, (flags ++ e). split; [rewrite <- !app_assoc; reflexivity |].
+      intros init top Hs. apply step_post_id; assumption.
+    + destruct (make_fold_ok
+                  (fun fs' => make_query_component S
+                                (fun cs'' fs'' => fill_in_vertex_data S cs'' fs'' next_vid sub_pre
+                                                    (post_of sub_pre subfield) subfield) fs' next_vid)
+                  fs fold_group next_eid (SchemaAst.f_name fd) edge_parameters current_vid next_vid subfield Hfs)
+        as [fs' [r [Hmf Hpost]]].
+      * intros g Eg. apply Hfoldclean. rewrite Eg. reflexivity.
+      * intros fs1 Hfs1. apply make_query_component_ok.
+        -- exact (so_origins S HS).
+        -- intros cs0 fs0 Hi0 Hc0 Hlt0 Hn0.
+           exact (IH cs0 fs0 next_vid sub_pre folds' HS Hty Hkids Hclean Hi0 Hc0 Hlt0 Hn0).
+        -- subst fs1. cbn [set_tags set_path fs_tags fs_path].
+           destruct Hfs as [[Himp [Hne Hpaths]] _].
+           repeat split.
+           ++ cbn [th_begin_subcomponent th_imported]. rewrite map_app, Himp. cbn [map fst].
+              destruct (fs_path fs); [exfalso; apply Hne; reflexivity | reflexivity].
+           ++ intros E. apply app_eq_nil in E. destruct E as [_ E]. discriminate E.
+           ++ exact Hpaths.
+        -- subst fs1. cbn [set_tags set_path fs_out fs_vid]. destruct Hfs as [_ Ho].
+           apply oh_inv_split in Ho. exact (proj1 Ho).
+        -- subst fs1. cbn [set_tags set_path fs_vid]. lia.
+      * rewrite Hmf. cbn [bind fst snd].
+        destruct Hpost as [F1 [F2 [F3 [F4 [F5 F6]]]]].
+        destruct r as [e | fold].
+        -- exists cs, fs', (flags ++ e). split; [rewrite <- !app_assoc; reflexivity |].
+           intros init top Hs. constructor; auto.
+           ++ eapply cs_inv_mono; eassumption.
+           ++ intros He. apply app_eq_nil in He. destruct He as [_ He]. exfalso. exact (F5 e eq_refl He).
+        -- eexists; exists fs', flags. split; [reflexivity |].
+           intros init top Hs. destruct (F6 fold eq_refl) as [Hp Hst]. constructor; auto.
+           ++ apply cs_inv_folds. eapply cs_inv_mono; eassumption.
+           ++ intros _. split; [exact Hp |]. exists top. split; [rewrite Hst; exact Hs | auto].
+  - (* a plain edge *)
+    destruct (nmap_insert_new_fresh _ next_eid (current_vid, next_vid, connection) (cs_edges cs)) as [edges [Hins Hchar]].
+    { intros Hk. specialize (Hefresh _ Hk). lia. }
+    rewrite Hins.
+    set (cs1 := mkCS (cs_vertices cs) edges (cs_folds cs) (cs_prop_names cs) (cs_props cs)).
+    assert (Hcs1 : cs_inv S cs1 fs).
+    { destruct Hcs as [C1 C2 C3 C4 C5 C6]. constructor; cbn [cs1 cs_vertices cs_edges cs_prop_names cs_props]; auto.
+      - intros k Hk. apply (keys_insert _ _ _ _ _ Hchar) in Hk. destruct Hk as [-> | Hk]; [lia | exact (C3 k Hk)].
+      - intros eid from to conn Hx. apply Hchar in Hx. destruct Hx as [E | Hx]; [| exact (C4 _ _ _ _ Hx)].
+        inversion E; subst. exists pre, node. split; [exact Hin |].
+        exists fd. repeat split; assumption. }
+    destruct (IH cs1 fs next_vid sub_pre folds' HS Hty Hkids Hclean Hfs Hcs1) as [cs' [fs' [e [Hfill Hpost]]]].
+    { lia. }
+    { intros Hk. specialize (Hvfresh _ Hk). lia. }
+    rewrite Hfill. cbn [bind].
+    exists cs', fs', e. split; [reflexivity |].
+    intros init top Hs. specialize (Hpost init top Hs).
+    destruct Hpost as [P1 P2 P3 P4 P5 P6 P7]. constructor; auto.
+Qed.
+
+(* ---------------- the loop over the selections of one vertex ---------------- *)
+Lemma ty_orderable_base : forall t, ty_orderable t = orderable_base (tbase t).
+Proof. reflexivity. Qed.
+
+Lemma fill_loop_ok : forall S current_vid pre node t folds l,
+  schema_ok S -> find_type (post_of pre node) (s_vts S) = Some t ->
+  Forall (fun cn : field_conn * field_node => fill_spec S (snd cn)) l ->
+  Forall (child_valid S (post_of pre node)) l ->
+  (forall st, In st (child_sites S (post_of pre node) folds l) -> site_clean S st) ->
+  forall cs fs errors,
+    In (current_vid, (pre, node)) (cs_vertices cs) -> fs_inv fs -> cs_inv S cs fs ->
+    exists cs' fs' e,
+      fill_loop S current_vid (post_of pre node) (t_fields t) l cs fs errors = Ok (cs', fs', errors ++ e) /\
+      forall init top, oh_comp_stack (fs_out fs) = init ++ [top] -> step_post S cs fs init top cs' fs' e.
+Proof.
+  intros S current_vid pre node t folds l HS Hft.
+  induction l as [| [connection subfield] rest IHl]; intros HIH Hvalid Hclean cs fs errors Hin Hfs Hcs.
+  - exists cs, fs, []. split; [rewrite fill_loop_nil, app_nil_r; reflexivity |].
+    intros init top Hs. apply step_post_id; assumption.
+  - inversion HIH as [| x xs HIH1 HIHr]; subst. inversion Hvalid as [| x xs Hv1 Hvr]; subst.
+    cbn [snd] in HIH1.
+    assert (Hclean_head : forall st, In st (sites S (post_of pre node) folds connection subfield) -> site_clean S st).
+    { intros st Hst. apply Hclean. rewrite child_sites_cons. apply in_or_app. left; exact Hst. }
+    assert (Hclean_rest : forall st, In st (child_sites S (post_of pre node) folds rest) -> site_clean S st).
+    { intros st Hst. apply Hclean. rewrite child_sites_cons. apply in_or_app. right; exact Hst. }
+    rewrite fill_loop_cons.
+    destruct (gfnt_ok S (post_of pre node) t connection subfield HS Hft Hv1)
+      as [n [sub_pre [sub_post [ty [Hg [Hn [Hcn [Hsig [W [Htn Hnt]]]]]]]]]].
+    rewrite Hg. cbn [bind].
+    (* the rest of the loop, composed with one step *)
+    assert (Hrest : forall cs1 fs1 e1,
+               (forall init top, oh_comp_stack (fs_out fs) = init ++ [top] -> step_post S cs fs init top cs1 fs1 e1) ->
+               fs_inv fs1 -> cs_inv S cs1 fs1 -> In (current_vid, (pre, node)) (cs_vertices cs1) ->
+               exists cs' fs' e,
+                 fill_loop S current_vid (post_of pre node) (t_fields t) rest cs1 fs1 (errors ++ e1)
+                 = Ok (cs', fs', errors ++ e) /\
+                 forall init top, oh_comp_stack (fs_out fs) = init ++ [top] -> step_post S cs fs init top cs' fs' e).
+    { intros cs1 fs1 e1 Hstep Hfs1 Hcs1 Hin1.
+      destruct (IHl HIHr Hvr Hclean_rest cs1 fs1 (errors ++ e1) Hin1 Hfs1 Hcs1) as [cs' [fs' [e2 [Hl2 Hp2]]]].
+      exists cs', fs', (e1 ++ e2). split; [rewrite Hl2, app_assoc; reflexivity |].
+      intros init top Hs. eapply step_post_trans; [apply Hstep; exact Hs | exact Hp2]. }
+    destruct (has_type sub_post (s_vts S)) eqn:Hht.
+    + (* an edge *)
+      destruct (String.eqb (fn_name subfield) TYPENAME) eqn:Etn.
+      { destruct (Htn eq_refl) as [E _]. subst sub_post. rewrite (so_typename S HS) in Hht. discriminate Hht. }
+      destruct (Hnt eq_refl) as [fd [Hfd [Hinfd [Hpre [Hpost [Hbase [Hdepth [Hco Hkids]]]]]]]].
+      subst sub_post.
+      (* the site of this selection *)
+      assert (Hsites : sites S (post_of pre node) folds connection subfield =
+                       mkSite (post_of pre node) connection subfield (Some fd) folds
+                       :: child_sites S (post_of sub_pre subfield)
+                            (match fc_fold connection with Some _ => Datatypes.S folds | None => folds end)
+                            (fn_connections subfield)).
+      { destruct subfield as [nm al co ff oo tt conns tg]. rewrite sites_unfold. cbv zeta.
+        cbn [fn_name] in Etn, Hfd. rewrite Etn, Hfd. unfold post_of. cbn [fn_coerced_to fn_connections].
+        rewrite Hpre. destruct co; reflexivity. }
+      assert (Hhead : site_clean S (mkSite (post_of pre node) connection subfield (Some fd) folds)).
+      { apply Hclean_head. rewrite Hsites. left; reflexivity. }
+      destruct Hhead as [Henum [Hfc Hdef]]. cbn [st_conn st_def st_node] in Henum, Hfc, Hdef.
+      destruct (Hdef fd eq_refl) as [Hdup _].
+      assert (Hgb : has_type (gbase (SchemaAst.f_ty fd)) (s_vts S) = true).
+      { destruct (fn_coerced_to subfield) as [co |] eqn:Eco.
+        - exact (proj1 (Hco co eq_refl)).
+        - unfold post_of in Hht. rewrite Eco in Hht. rewrite <- Hpre. exact Hht. }
+      assert (Hedge : edge_ok S (post_of pre node) connection).
+      { exists fd. rewrite Hcn. split; [exact Hfd |].
+        split; [exact (proj2 (proj2 (so_fields S HS _ _ _ Hft Hinfd)) Hgb) |].
+        split; [exact Hdup | exact Henum]. }
+      set (next_vid := fs_vid fs). set (next_eid := fs_eid fs).
+      pose proof Hfs as [Htags Hout].
+      destruct (oh_begin_nested_scope_ok (fs_out fs) next_vid (fn_alias subfield) Hout)
+        as [o1 [Ho1 [Hst1 [Hcs1 [Hgl1 Hinv1]]]]].
+      cbn [fs_out]. rewrite Ho1. cbn [bind].
+      set (fsb := set_out (mkFS (next_vid + 1) (next_eid + 1) (fs_path fs) (fs_out fs) (fs_tags fs)) o1).
+      assert (Hfsb : fs_inv fsb) by (constructor; cbn; assumption).
+      assert (Hcsb : cs_inv S cs fsb) by (eapply cs_inv_mono; [exact Hcs | cbn; lia | cbn; lia]).
+      destruct (edge_step_ok S current_vid pre node connection subfield sub_pre
+                  (match fc_fold connection with Some _ => Datatypes.S folds | None => folds end)
+                  next_vid next_eid cs fsb errors HS HIH1 Hin Hedge Hfc Hht Hkids)
+        as [cs1 [fs1 [e1 [Hes Hps]]]]; try assumption; try reflexivity.
+      { intros st Hst. apply Hclean_head. rewrite Hsites. right; exact Hst. }
+      { exact (ci_vfresh _ _ _ Hcs). }
+      { exact (ci_efresh _ _ _ Hcs). }
+      rewrite Hes. cbn [bind].
+      destruct (nonempty_snoc _ _ (oi_comp _ _ Hout)) as [i0 [t0 Hs0]].
+      assert (Hsb0 : oh_comp_stack (fs_out fsb) = i0 ++ [t0]) by (cbn; rewrite Hcs1; exact Hs0).
+      pose proof (Hps i0 t0 Hsb0) as P0.
+      assert (Hstk1 : oh_vid_stack (fs_out fs1) = oh_vid_stack (fs_out fs) ++ [next_vid]).
+      { rewrite (sp_stack _ _ _ _ _ _ _ _ P0). cbn. exact Hst1. }
+      destruct (oh_end_nested_scope_ok (fs_out fs1) _ next_vid Hstk1) as [o2 [Ho2 [Hst2 [Hpf2 [Hcs2 Hgl2]]]]].
+      rewrite Ho2. cbn [bind].
+      assert (Hfs2 : fs_inv (set_out fs1 o2)).
+      { destruct (sp_fs _ _ _ _ _ _ _ _ P0) as [T1 [A B C]]. constructor; cbn; [exact T1 |].
+        constructor.
+        - rewrite Hst2, Hpf2. intros v Hv. apply A. rewrite Hstk1. apply in_or_app. left; exact Hv.
+        - rewrite Hpf2. exact B.
+        - rewrite Hcs2. exact C. }
+      assert (Hcs2' : cs_inv S cs1 (set_out fs1 o2)).
+      { eapply cs_inv_mono; [exact (sp_cs _ _ _ _ _ _ _ _ P0) | cbn; lia | cbn; lia]. }
+      apply (Hrest cs1 (set_out fs1 o2) e1); [| exact Hfs2 | exact Hcs2' |].
+      * intros init top Hs.
+        assert (Hsb : oh_comp_stack (fs_out fsb) = init ++ [top]) by (cbn; rewrite Hcs1; exact Hs).
+        pose proof (Hps init top Hsb) as P. destruct P as [P1 P2 P3 P4 P5 P6 P7].
+        constructor; auto.
+        -- cbn in P3 |- *. lia.
+        -- cbn in P4 |- *. lia.
+        -- intros He. destruct (P7 He) as [Hp [top' [Hc' Hf']]]. split; [exact Hp |].
+           exists top'. split; [cbn; rewrite Hcs2; exact Hc' | exact Hf'].
+      * apply (sp_vertices _ _ _ _ _ _ _ _ P0). exact Hin.
+    + (* a property, or neither *)
+      assert (Hprop : (builtin_scalar sub_post || mem sub_post (s_scalars S) || String.eqb n TYPENAME)%bool = true).
+      { destruct (String.eqb (fn_name subfield) TYPENAME) eqn:Etn.
+        - rewrite Hn, Etn. apply Bool.orb_true_r.
+        - destruct (Hnt eq_refl) as [fd [Hfd [Hinfd [Hpre [Hpost [Hbase [Hdepth [Hco Hkids]]]]]]]].
+          destruct (fn_coerced_to subfield) as [co |] eqn:Eco.
+          + destruct (Hco co eq_refl) as [_ Hc]. unfold post_of in Hpost. rewrite Eco in Hpost. subst sub_post.
+            rewrite Hc in Hht. discriminate Hht.
+          + unfold post_of in Hpost. rewrite Eco in Hpost. subst sub_post sub_pre.
+            destruct (so_fields S HS _ _ _ Hft Hinfd) as [[Hb | Hv] _].
+            * rewrite Hb. reflexivity.
+            * rewrite Hv in Hht. discriminate Hht. }
+      rewrite Hprop.
+      assert (Hfok : Forall (filter_ok ty) (fn_filters subfield)).
+      { destruct (String.eqb (fn_name subfield) TYPENAME) eqn:Etn.
+        - destruct (Htn eq_refl) as [_ ->]. apply string_type_filters_ok.
+        - destruct (Hnt eq_refl) as [fd [Hfd [Hinfd [Hpre [Hpost [Hbase [Hdepth [Hco Hkids]]]]]]]].
+          assert (Hhead : site_clean S (mkSite (post_of pre node) connection subfield (Some fd) folds)).
+          { apply Hclean_head. destruct subfield as [nm al co ff oo tt conns tg]. rewrite sites_unfold. cbv zeta.
+            cbn [fn_name] in Etn, Hfd. rewrite Etn, Hfd. left; reflexivity. }
+          destruct Hhead as [_ [_ Hdef]]. cbn [st_def st_node] in Hdef.
+          destruct (Hdef fd eq_refl) as [_ [Hord Hbulk]].
+          apply filters_ok_of_clean.
+          + intros H. rewrite ty_orderable_base, Hbase. exact (Hord H).
+          + intros H. specialize (Hbulk H). rewrite Hdepth. apply Nat.eqb_neq. lia. }
+      subst n.
+      pose proof Hfs as [Htags Hout].
+      destruct (nonempty_snoc _ _ (oi_comp _ _ Hout)) as [i0 [t0 Hs0]].
+      destruct (prop_step_ok S cs fs current_vid pre node connection subfield ty errors i0 t0 Hfs Hcs Hin Hsig W Hfok Hs0)
+        as [cs1 [fs1 [errs1 [Hpstep [Hfs1 [Hcs1 [Ev [Ee [Ep [Est [Evs [Ees [_ [e1 He1]]]]]]]]]]]]]].
+      rewrite Hpstep. cbn [bind]. subst errs1.
+      apply (Hrest cs1 fs1 e1); [| exact Hfs1 | exact Hcs1 | rewrite Evs; exact Hin].
+      intros init top Hs.
+      destruct (prop_step_ok S cs fs current_vid pre node connection subfield ty errors init top Hfs Hcs Hin Hsig W Hfok Hs)
+        as [cs1' [fs1' [errs1' [Hpstep' [_ [_ [_ [_ [_ [_ [_ [_ [[top' [Hc' Hf']] _]]]]]]]]]]]]].
+      rewrite Hpstep in Hpstep'. inversion Hpstep'; subst cs1' fs1' errs1'.
+      constructor; auto; try lia.
+      * rewrite Evs. auto.
+      * intros _. split; [exact Ep |]. exists top'. split; [exact Hc' |]. rewrite Evs. exact Hf'.
+Qed.
+
+(* ---------------- fill_in_vertex_data ---------------- *)
+Theorem fill_in_vertex_data_spec : forall S node, fill_spec S node.
+Proof.
+  intros S node. induction node as [name alias co f o t conns tg IH] using field_node_ind'.
+  intros cs fs vid pre folds HS Hty Hvalid Hclean Hfs Hcs Hlt Hfresh.
+  set (node := mkFN name alias co f o t conns tg) in *.
+  unfold node at 2. rewrite fill_unfold. fold node.
+  destruct (nmap_insert_new_fresh _ vid (pre, node) (cs_vertices cs) Hfresh) as [vertices [Hins Hchar]].
+  rewrite Hins. cbv zeta.
+  unfold has_type in Hty. destruct (find_type (post_of pre node) (s_vts S)) as [tdef |] eqn:Hft; [| discriminate Hty].
+  unfold get_vertex_field_definitions. rewrite Hft. cbn [bind].
+  set (cs1 := mkCS vertices (cs_edges cs) (cs_folds cs) (cs_prop_names cs) (cs_props cs)).
+  assert (Hcs1 : cs_inv S cs1 fs).
+  { destruct Hcs as [C1 C2 C3 C4 C5 C6]. constructor; cbn [cs1 cs_vertices cs_edges cs_prop_names cs_props]; auto.
+    - intros k Hk. apply (keys_insert _ _ _ _ _ Hchar) in Hk. destruct Hk as [-> | Hk]; [exact Hlt | exact (C1 k Hk)].
+    - eapply nmap_insert_new_nodup; eassumption.
+    - intros eid from to conn Hx. destruct (C4 _ _ _ _ Hx) as [p [n [Hin He]]].
+      exists p, n. split; [apply Hchar; right; exact Hin | exact He].
+    - intros v nm n ty fields Hx. destruct (C6 _ _ _ _ _ Hx) as [p [nd [Hin Hs]]].
+      exists p, nd. split; [apply Hchar; right; exact Hin | exact Hs]. }
+  assert (Hin1 : In (vid, (pre, node)) (cs_vertices cs1)) by (apply Hchar; left; reflexivity).
+  destruct (fill_loop_ok S vid pre node tdef folds conns HS Hft IH Hvalid Hclean cs1 fs [] Hin1 Hfs Hcs1)
+    as [cs' [fs' [e [Hloop Hpost]]]].
+  exists cs', fs', e. split; [exact Hloop |].
+  intros init top Hs. destruct (Hpost init top Hs) as [P1 P2 P3 P4 P5 P6 P7].
+  constructor; auto.
+  - intros x Hx. apply P6. apply Hchar. right; exact Hx.
+  - intros He. destruct (P7 He) as [Hp [top' [Hc Hf]]]. split; [exact Hp |]. exists top'. split; [exact Hc |].
+    intros Hfr. apply Hf. intros g Hg. destruct (Hfr g Hg) as [c [Ec Hc']]. exists c. split; [exact Ec |].
+    apply (keys_insert _ _ _ _ _ Hchar). right; exact Hc'.
 Qed.
